@@ -91,6 +91,11 @@ fn pair(p: (Item, Item)) -> Item {
   p.0 * 1000 + p.1
 }
 
+thread_local! {
+  /// (ctx, stamps of finalizer runs) of the execution in progress
+  static FIN_STAMPS: std::cell::RefCell<Option<(Arc<Ctx>, Arc<Mutex<Vec<u64>>>)>> = std::cell::RefCell::new(None);
+}
+
 pub fn build(shape: Shape, a: &Subj, b: &Subj, fin: &Arc<AtomicUsize>) -> Pipe {
   let (a, b) = (a.clone(), b.clone());
   match shape {
@@ -109,8 +114,12 @@ pub fn build(shape: Shape, a: &Subj, b: &Subj, fin: &Arc<AtomicUsize>) -> Pipe {
     Shape::Share => a.share_threads().box_it(),
     Shape::Finalize => {
       let f = fin.clone();
+      let sink = FIN_STAMPS.with(|s| s.borrow().clone());
       a.finalize_threads(move || {
         f.fetch_add(1, Ordering::SeqCst);
+        if let Some((ctx, v)) = &sink {
+          v.lock().unwrap().push(ctx.stamp());
+        }
       })
       .box_it()
     }
@@ -212,6 +221,8 @@ pub fn script_scenario(prop: &str, shape: Shape, scripts: Vec<Vec<Op>>, oracle: 
     max_execs,
     body: Arc::new(move |ctx: &Arc<Ctx>, out: &mut Out| {
       let fin = Arc::new(AtomicUsize::new(0));
+      let fin_stamps: Arc<Mutex<Vec<u64>>> = Arc::new(Mutex::new(vec![]));
+      FIN_STAMPS.with(|s| *s.borrow_mut() = Some((ctx.clone(), fin_stamps.clone())));
       let a = Subj::default();
       let b = Subj::default();
       let p0 = TProbe::new("p0", ctx);
@@ -384,6 +395,18 @@ pub fn script_scenario(prop: &str, shape: Shape, scripts: Vec<Vec<Op>>, oracle: 
             .iter()
             .any(|c| matches!(c.op, Op::CompleteA | Op::ErrorA | Op::Unsubscribe));
           let _ = Op::UnsubSubject;
+          // "right after the first of those events, never before it": once the
+          // finalizer of the early subscription has run nothing reaches its subscriber
+          if let Some(at) = fin_stamps.lock().unwrap().first() {
+            for e in p0.evs() {
+              if e.enter > *at {
+                ctx.fail(
+                  format!("{prop}:delivered-after-finalizer:{}", shape.name()),
+                  format!("the finalizer ran at stamp {at}, the subscriber got {:?} at {}", e.note, e.enter),
+                );
+              }
+            }
+          }
           if n != triggered as usize {
             ctx.fail(
               format!("{prop}:finalize-count:{}", shape.name()),
@@ -458,29 +481,73 @@ pub fn behavior_scenario(two_producers: bool, bound: u32, max_execs: u64) -> Sce
       let cls = if two_producers { "two-producers" } else { "one-producer" };
       // the most recent value is the one delivered last in the common order
       if order.last() != Some(&Note::N(peek)) {
-        ctx.fail(
-          format!("C12:peek-vs-last-delivered:{cls}"),
-          format!("subscribers saw [{}] but peek() = {peek}", fmt_notes(&order)),
-        );
+        if !order.contains(&Note::N(peek)) {
+          // not explained by the store/broadcast window: that can only expose a
+          // value that is (being) delivered
+          ctx.fail(
+            format!("C12:peek-never-delivered:{cls}"),
+            format!("subscribers saw [{}] but peek() = {peek}", fmt_notes(&order)),
+          );
+        } else {
+          ctx.fail(
+            format!("C12:peek-vs-last-delivered:{cls}"),
+            format!("subscribers saw [{}] but peek() = {peek}", fmt_notes(&order)),
+          );
+        }
       }
       // late subscriber: [v] + exactly the items delivered after v in the common order
       match lnotes.first() {
         None => ctx.fail(format!("C12:late-empty:{cls}"), "the late subscriber got nothing"),
         Some(first) => {
           let rest = &lnotes[1..];
-          let ok = match order.iter().position(|n| n == first) {
-            Some(i) => order[i + 1..] == *rest,
-            None => false,
-          };
-          if !ok {
-            ctx.fail(
-              format!("C12:late-subscriber:{cls}"),
-              format!(
-                "common order [{}], late subscriber saw [{}]: not `current value, then exactly the later items`",
-                fmt_notes(&order),
-                fmt_notes(&lnotes)
-              ),
-            );
+          match order.iter().position(|n| n == first) {
+            None => ctx.fail(
+              format!("C12:late-first-value-never-current:{cls}"),
+              format!("common order [{}], late subscriber saw [{}]", fmt_notes(&order), fmt_notes(&lnotes)),
+            ),
+            Some(i) => {
+              let later = &order[i + 1..];
+              // joined between a producer's store and its broadcast: the value handed
+              // over as "current" is still to be broadcast, so everything broadcast
+              // after the join — a suffix of the common order that contains that value
+              // again — follows
+              let stored_not_yet_broadcast = (1..=i).any(|k| order[k..] == *rest);
+              if stored_not_yet_broadcast {
+                ctx.fail(
+                  format!("C12:late-subscriber-inflight-twice:{cls}"),
+                  format!(
+                    "common order [{}], late subscriber saw [{}]: the value handed over on joining was broadcast again afterwards",
+                    fmt_notes(&order),
+                    fmt_notes(&lnotes)
+                  ),
+                );
+              }
+              let rest: &[Note] = if stored_not_yet_broadcast { later } else { rest };
+              if later != rest {
+                // the known window only ever *loses* in-flight items: what did
+                // arrive must be later items, each once, in the common order
+                let mut pos = 0usize;
+                let mut is_subseq = true;
+                for x in rest {
+                  match later[pos..].iter().position(|y| y == x) {
+                    Some(k) => pos += k + 1,
+                    None => {
+                      is_subseq = false;
+                      break;
+                    }
+                  }
+                }
+                let clause = if is_subseq { "late-subscriber" } else { "late-subscriber-corrupt" };
+                ctx.fail(
+                  format!("C12:{clause}:{cls}"),
+                  format!(
+                    "common order [{}], late subscriber saw [{}]: not `current value, then exactly the later items`",
+                    fmt_notes(&order),
+                    fmt_notes(&lnotes)
+                  ),
+                );
+              }
+            }
           }
         }
       }
@@ -662,6 +729,116 @@ pub fn flat_scenario(prop: &str, limit: usize, n_inner: usize, bound: u32, max_e
   }
 }
 
+// ----------------------------------------------------------- scheduler tasks (C19)
+
+#[derive(Clone)]
+pub struct TaskArgs {
+  ctx: Arc<Ctx>,
+  inside: Arc<shuttle::sync::atomic::AtomicBool>,
+  /// (start stamp, end stamp) of every run of the body
+  runs: Arc<Mutex<Vec<(u64, u64)>>>,
+  produced: Arc<std::sync::atomic::AtomicBool>,
+}
+
+#[derive(Clone)]
+pub struct Produced(Arc<std::sync::atomic::AtomicBool>);
+impl Subscription for Produced {
+  fn unsubscribe(self) {
+    self.0.store(true, Ordering::SeqCst);
+  }
+  fn is_closed(&self) -> bool {
+    self.0.load(Ordering::SeqCst)
+  }
+}
+
+fn task_body_common(a: &TaskArgs) {
+  let start = a.ctx.stamp();
+  // two controlled steps inside the body: another thread may run in between
+  a.inside.store(true, Ordering::SeqCst);
+  a.inside.store(false, Ordering::SeqCst);
+  let end = a.ctx.stamp();
+  a.runs.lock().unwrap().push((start, end));
+}
+fn task_body_sub(a: TaskArgs) -> rxrust::scheduler::SubscribeReturn<Produced> {
+  task_body_common(&a);
+  rxrust::scheduler::SubscribeReturn::new(Produced(a.produced.clone()))
+}
+fn task_body_plain(a: TaskArgs) -> rxrust::scheduler::NormalReturn<()> {
+  task_body_common(&a);
+  rxrust::scheduler::NormalReturn::new(())
+}
+
+/// a one-shot task on the controlled pool against a thread cancelling its handle
+pub fn task_scenario(subscribing: bool, delayed: bool, bound: u32, max_execs: u64) -> Scenario {
+  use rxrust::scheduler::{OnceTask, Scheduler};
+  let name = format!(
+    "{} one-shot task{} || unsubscribe(handle) c<={bound}",
+    if subscribing { "subscribing" } else { "plain" },
+    if delayed { " with a delay" } else { "" }
+  );
+  Scenario {
+    name,
+    sig: format!("task:{}", if subscribing { "subscribing" } else { "plain" }),
+    bound,
+    max_execs,
+    body: Arc::new(move |ctx: &Arc<Ctx>, out: &mut Out| {
+      let args = TaskArgs {
+        ctx: ctx.clone(),
+        inside: Arc::new(shuttle::sync::atomic::AtomicBool::new(false)),
+        runs: Arc::new(Mutex::new(vec![])),
+        produced: Arc::new(std::sync::atomic::AtomicBool::new(false)),
+      };
+      let sched = pool_scheduler();
+      let d = if delayed { Some(ticks(1)) } else { None };
+      let seen_inside = Arc::new(std::sync::atomic::AtomicBool::new(false));
+      let returned_at = Arc::new(AtomicUsize::new(0));
+      let (a2, si, ra, cx) = (args.clone(), seen_inside.clone(), returned_at.clone(), ctx.clone());
+      let t = if subscribing {
+        let h = sched.schedule(OnceTask::new(task_body_sub, args.clone()), d);
+        shuttle::thread::spawn(move || {
+          h.unsubscribe();
+          ra.store(cx.stamp() as usize, Ordering::SeqCst);
+          si.store(a2.inside.load(Ordering::SeqCst), Ordering::SeqCst);
+        })
+      } else {
+        let h = sched.schedule(OnceTask::new(task_body_plain, args.clone()), d);
+        shuttle::thread::spawn(move || {
+          h.unsubscribe();
+          ra.store(cx.stamp() as usize, Ordering::SeqCst);
+          si.store(a2.inside.load(Ordering::SeqCst), Ordering::SeqCst);
+        })
+      };
+      t.join().unwrap();
+      drain_pool(false);
+      let runs = args.runs.lock().unwrap().clone();
+      let ret = returned_at.load(Ordering::SeqCst) as u64;
+      if runs.len() > 1 {
+        ctx.fail("C19:ran-twice", format!("the body ran {} times", runs.len()));
+      }
+      if seen_inside.load(Ordering::SeqCst) {
+        ctx.fail("C19:still-running-after-unsubscribe", "unsubscribe() returned while the task body was still running");
+      }
+      for (start, end) in &runs {
+        if *start > ret {
+          ctx.fail("C19:started-after-unsubscribe", format!("unsubscribe() returned at stamp {ret}, the body started at {start}"));
+        } else if *end > ret {
+          ctx.fail("C19:still-running-after-unsubscribe", format!("unsubscribe() returned at stamp {ret}, the body ended at {end}"));
+        }
+      }
+      if subscribing && !runs.is_empty() && !args.produced.load(Ordering::SeqCst) {
+        ctx.fail(
+          "C19:produced-subscription-left-open",
+          "the body ran and produced a subscription; cancelling the handle did not unsubscribe it",
+        );
+      }
+      out.delivered = runs.len() as u64;
+      out.note(&runs.len());
+      out.note(&args.produced.load(Ordering::SeqCst));
+      out.trace.push(format!("runs {runs:?} unsubscribe returned at {ret}"));
+    }),
+  }
+}
+
 // ----------------------------------------------------------- plans
 
 pub struct Plan {
@@ -795,6 +972,20 @@ pub fn plan(prop: &str, tier: Tier) -> Option<Plan> {
       Some(Plan {
         scenarios: sc,
         rule: "merge_all_threads(limit) over hot inner subjects, inner 0 already running: one thread delivers the remaining inners and completes the outer while another drives and completes inner 0; afterwards the other inners are driven and completed; every schedule within the preemption bound; oracle: every inner item exactly once and then completion (a queued inner that is never started, or started twice, shows as a lost / duplicated item or a missing completion), no overlapping callbacks, nothing blocks".into(),
+        bounds: json!({"preemptions": c}),
+        assumptions: vec!["sequentially consistent memory".into()],
+      })
+    }
+    "C19" => {
+      let c = if q { 3 } else { 4 };
+      for subscribing in [true, false] {
+        for delayed in [false, true] {
+          sc.push(task_scenario(subscribing, delayed, c, CAP));
+        }
+      }
+      Some(Plan {
+        scenarios: sc,
+        rule: "a one-shot task (plain / producing a subscription; with and without a delay) scheduled through the crate's scheduler machinery (Remote, TaskHandle) on a controlled pool task, against a thread that cancels the handle; the body contains two controlled steps so that another thread can run in the middle of it; every schedule within the preemption bound; oracle: the body runs at most once, neither starts nor is still running once unsubscribe() has returned, and a subscription it produced is unsubscribed by the handle teardown".into(),
         bounds: json!({"preemptions": c}),
         assumptions: vec!["sequentially consistent memory".into()],
       })
